@@ -171,6 +171,8 @@ package utils
 //@ spec msOfEpoch(v uint64) uint64 = ite(v >= 1000000000000000000, v / 1000000, ite(v >= 99999999999, v, v * 1000))
 //@ ghostdecl tsraw uint64
 //@ ghostdecl tsnum int
+//@ ghostdecl etsraw uint64
+//@ ghostdecl etsnum int
 
 //@ func IsTimeInMilli
 //@   props C16
@@ -190,7 +192,9 @@ package utils
 // the result through a ghost cell written where the code first uses it.
 //@ func ConvertTimestampToMillis
 //@   props C16
+//@   mode int
 //@   requires ghost(0, "tsnum") == 0
+//@   modifies ghost(0, "tsnum"), ghost(0, "tsraw")
 //@   site call IsTimeInNano #1:
 //@     ghostset ghost(0, "tsraw") = parsed_value
 //@     ghostset ghost(0, "tsnum") = 1
@@ -200,11 +204,14 @@ package utils
 // Number path of the JSON extractor: must agree with the string path.
 //@ func ExtractTimeStamp
 //@   props C16
-//@   requires timestampKey != nil && ghost(0, "tsnum") == 0
+//@   mode int
+//@   requires timestampKey != nil && ghost(0, "etsnum") == 0 && ghost(0, "tsnum") == 0
 //@   site call IsTimeInNano #1:
-//@     ghostset ghost(0, "tsraw") = ts_millis
-//@     ghostset ghost(0, "tsnum") = 1
-//@   ensures [number-path-equals-string-path] implies(ghost(0, "tsnum") == 1, result == msOfEpoch(ghost(0, "tsraw")))
+//@     ghostset ghost(0, "etsraw") = ts_millis
+//@     ghostset ghost(0, "etsnum") = 1
+//@   ensures [number-path-equals-string-path] implies(ghost(0, "etsnum") == 1, result == msOfEpoch(ghost(0, "etsraw")))
+// an integer JSON number keeps its exact value (it must not be routed through float64)
+//@   ensures [integer-number-exact] implies(ghost(0, "etsnum") == 1 && uf("isIntText", bool, rawVal) && uf("intOf", int64, rawVal) >= 0, result == msOfEpoch(uint64(uf("intOf", int64, rawVal))))
 //@ end
 
 //@ func normalizeIntToSeconds
@@ -214,4 +221,33 @@ package utils
 //@   ensures [s] implies(value > 0 && value <= 1000000000000, result1 == nil && int64(result0) == value % 4294967296)
 //@   ensures [reject] implies(value <= 0, result1 != nil)
 //@   safe
+//@ end
+
+// ---- utils.Buffer (chunked byte buffer of the open block): frame only --------
+// ASSUMED: appending touches only the buffer object and byte contents; the
+// functional view (Append extends the byte sequence by exactly `data`) is
+// listed as Tier 2 in DESIGN.md and is not verified here.
+//@ func (*Buffer).Append
+//@   assumed
+//@   modifies b.chunks, b.offset, allbytes
+//@ end
+//@ func (*Buffer).AppendUint16LittleEndian
+//@   assumed
+//@   modifies b.chunks, b.offset, allbytes
+//@ end
+//@ func (*Buffer).AppendUint32LittleEndian
+//@   assumed
+//@   modifies b.chunks, b.offset, allbytes
+//@ end
+//@ func (*Buffer).AppendUint64LittleEndian
+//@   assumed
+//@   modifies b.chunks, b.offset, allbytes
+//@ end
+//@ func (*Buffer).AppendInt64LittleEndian
+//@   assumed
+//@   modifies b.chunks, b.offset, allbytes
+//@ end
+//@ func (*Buffer).AppendFloat64LittleEndian
+//@   assumed
+//@   modifies b.chunks, b.offset, allbytes
 //@ end
